@@ -67,9 +67,47 @@ func columnCursorRule(c *Ctx, rule string, fn *ssa.Function) {
 		return
 	}
 	qType := q.Type().(*types.Pointer).Elem()
+	// the functions the paginator is made of: UsingColumn and the helpers of the package that are given the query
+	// (or its direction); each has its own copy of the query
+	isQueryType := func(t types.Type) bool { return types.Identical(t, qType) }
+	parts := []*ssa.Function{fn}
+	seenPart := map[*ssa.Function]bool{fn: true}
+	for i := 0; i < len(parts) && i < 12; i++ {
+		allCalls(parts[i], func(ci ssa.CallInstruction) {
+			g := staticCallee(ci)
+			if g == nil || seenPart[g] || len(g.Blocks) == 0 || fnPkgPath(origin(g)) != fnPkgPath(origin(fn)) {
+				return
+			}
+			for _, p := range g.Params {
+				if isQueryType(p.Type()) {
+					seenPart[g] = true
+					parts = append(parts, g)
+					return
+				}
+			}
+		})
+	}
+	queryOf := map[ssa.Value]bool{q: true}
+	for _, g := range parts {
+		for _, p := range g.Params {
+			if !isQueryType(p.Type()) {
+				continue
+			}
+			queryOf[p] = true
+			if p.Referrers() != nil {
+				for _, r := range *p.Referrers() {
+					if st, ok := r.(*ssa.Store); ok && st.Val == ssa.Value(p) {
+						if a, ok := st.Addr.(*ssa.Alloc); ok {
+							queryOf[a] = true
+						}
+					}
+				}
+			}
+		}
+	}
 	fieldOn := func(v ssa.Value, base ssa.Value, name string) bool {
 		f, b := anyFieldRead(v)
-		return f != nil && f.Name() == name && b == base
+		return f != nil && f.Name() == name && (b == base || queryOf[b])
 	}
 	const (
 		bRevT = 1 << iota
@@ -96,6 +134,10 @@ func columnCursorRule(c *Ctx, rule string, fn *ssa.Function) {
 						return []*ssa.Function{g}
 					}
 				}
+				// … or the query itself
+				if seenPart[g] {
+					return []*ssa.Function{g}
+				}
 			}
 			return nil
 		},
@@ -117,7 +159,7 @@ func columnCursorRule(c *Ctx, rule string, fn *ssa.Function) {
 						s |= bRevF
 					}
 				}
-				if bo, ok := f.X.(*ssa.BinOp); ok && bo.Op == token.GTR {
+				if bo, ok := pc.Resolve(f.X).(*ssa.BinOp); ok && bo.Op == token.GTR {
 					if call, ok := bo.X.(*ssa.Call); ok {
 						if bi, ok := call.Call.Value.(*ssa.Builtin); ok && bi.Name() == "len" {
 							if val {
@@ -157,6 +199,17 @@ func columnCursorRule(c *Ctx, rule string, fn *ssa.Function) {
 			}
 			return s
 		},
+		Exit: func(pc *PathCtx, s uint64, ins ssa.Instruction) {
+			// a comparison operator handed back by a helper (`return "<", true`), with the direction of that path
+			if pc.parent == nil {
+				return
+			}
+			if ret, ok := ins.(*ssa.Return); ok && len(ret.Results) > 0 {
+				if sv, ok := constString(ret.Results[0]); ok && isCmpOp(sv) {
+					opEvents = append(opEvents, opEvent{sv, s, ret.Pos()})
+				}
+			}
+		},
 	}
 	c.RunPaths(fn, 0, pr)
 
@@ -164,7 +217,11 @@ func columnCursorRule(c *Ctx, rule string, fn *ssa.Function) {
 	type strictness int // 1 strict, 2 inclusive
 	reader := map[bool]map[strictness]token.Pos{true: {}, false: {}}
 	nWhere := 0
-	for _, b := range fn.Blocks {
+	var partBlocks []*ssa.BasicBlock
+	for _, g := range parts {
+		partBlocks = append(partBlocks, g.Blocks...)
+	}
+	for _, b := range partBlocks {
 		for _, ins := range b.Instrs {
 			call, ok := ins.(*ssa.Call)
 			if !ok || !strings.HasSuffix(calleeFullName(call), "bun.SelectQuery).Where") || len(call.Call.Args) < 2 {
@@ -236,10 +293,10 @@ func columnCursorRule(c *Ctx, rule string, fn *ssa.Function) {
 
 	// ---- writer sites: copies of the query
 	nCopies := 0
-	for _, b := range fn.Blocks {
+	for _, b := range partBlocks {
 		for _, ins := range b.Instrs {
 			cp, ok := ins.(*ssa.Alloc)
-			if !ok || cp == q || !types.Identical(cp.Type().(*types.Pointer).Elem(), qType) {
+			if !ok || queryOf[cp] || !types.Identical(cp.Type().(*types.Pointer).Elem(), qType) {
 				continue
 			}
 			var copyStore *ssa.Store
@@ -250,7 +307,10 @@ func columnCursorRule(c *Ctx, rule string, fn *ssa.Function) {
 				switch u := r.(type) {
 				case *ssa.Store:
 					if u.Addr == ssa.Value(cp) {
-						if l, ok := u.Val.(*ssa.UnOp); ok && l.Op == token.MUL && l.X == ssa.Value(q) {
+						if l, ok := u.Val.(*ssa.UnOp); ok && l.Op == token.MUL && queryOf[l.X] {
+							copyStore = u
+						}
+						if queryOf[u.Val] {
 							copyStore = u
 						}
 					}
